@@ -91,6 +91,7 @@ fn stepped(base: &Xstate, src: &str, lim: Option<Lim>, violations: &mut Vec<(Str
         }
         p
     };
+    watch::note(AsRef::<str>::as_ref(&src));
     let r = guarded(|| xs.compile(src))?;
     let mut trace = vec![monitor(&xs, 0, "after compile", violations)];
     if let Err(e) = r {
@@ -294,6 +295,7 @@ fn check_program(base: &Xstate, src: &str, rep: &Reporter, stats: &mut BTreeMap<
     // ---------------- the same limits under eval (one call): final invariants + outcome
     let mut ueval = base.clone();
     ueval.set_insn_limit(None).unwrap();
+    watch::note(AsRef::<str>::as_ref(&src));
     let ur = guarded(|| ueval.eval(src))?;
     let need_eval = pt(&ueval).meter;
     let uf = fin(&mut ueval, &ur);
@@ -301,6 +303,7 @@ fn check_program(base: &Xstate, src: &str, rep: &Reporter, stats: &mut BTreeMap<
         let mut xs = base.clone();
         xs.set_insn_limit(None).unwrap();
         apply_limit(&mut xs, lim);
+        watch::note(AsRef::<str>::as_ref(&src));
         let r = guarded(|| xs.eval(src))?;
         runs += 1;
         let p = pt(&xs);
@@ -472,6 +475,7 @@ pub fn run(cfg: &Cfg) -> i32 {
                         probe.set_insn_limit(None).unwrap();
                         probe.set_stack_limit(None).unwrap();
                         probe.set_heap_limit(None).unwrap();
+                        watch::note(AsRef::<str>::as_ref(&src));
                         let _ = guarded(|| probe.eval(src));
                         let need = pt(&probe);
                         let cur = pt(&xs);
@@ -491,6 +495,7 @@ pub fn run(cfg: &Cfg) -> i32 {
                             apply_limit(&mut xs, l);
                         }
                         desc.push(format!("{} under {:?}", src, ls[li]));
+                        watch::note(AsRef::<str>::as_ref(&src));
                         let r = match guarded(|| xs.eval(src)) {
                             Ok(r) => r,
                             Err(pn) => {
@@ -498,6 +503,7 @@ pub fn run(cfg: &Cfg) -> i32 {
                                 break;
                             }
                         };
+                        watch::note(AsRef::<str>::as_ref(&src));
                         let _ = guarded(|| un.eval(src));
                         let after = pt(&xs);
                         let bad = match lim {
@@ -574,6 +580,7 @@ pub fn run(cfg: &Cfg) -> i32 {
                             let mut xs = start.clone();
                             xs.set_stack_limit(Some(s_lim)).unwrap();
                             n += 1;
+                            watch::note(AsRef::<str>::as_ref(&src));
                             let r = guarded(|| if drive == 0 { xs.eval(&src) } else { xs.compile(&src).and_then(|_| xs.run()) });
                             let r = match r {
                                 Ok(r) => r,
@@ -605,6 +612,7 @@ pub fn run(cfg: &Cfg) -> i32 {
                 let mut xs = base.clone();
                 xs.set_heap_limit(Some(h)).unwrap();
                 n += 1;
+                watch::note(AsRef::<str>::as_ref(&src));
                 let r = guarded(|| xs.eval(src)).unwrap_or(Err(Xerr::InternalError));
                 let allocates = src.contains("var") || src.contains("let");
                 let cx = Ctx { rep: &rep, src };
